@@ -2016,6 +2016,6 @@ func main() {
 	for i := 0; i < nexec; i++ {
 		add("exec", genExec(r.Fork()))
 	}
-	out.Extra["rule"] = "case = a history of 20..60 steps over a tree of handles (Open, Session{}, Session{NewDB}, WithContext, Debug, Begin) on DummyDialector in DryRun: chain methods Where(string|map)/Or/Not/Having/Group/Order/Clauses(OrderBy,Returning,Locking,OnConflict,From)/Limit/Offset/Select(string|[]string)/Distinct/Omit/Joins/Scopes/Unscoped/Table/Model, finishers Find/First/Take/Update/Delete from any live handle at any time; only handles from Open/Session/WithContext/Debug/Begin are reused, a chain result is continued linearly; edge stream: caller slices with spare capacity, empty/nil Returning; pattern stream: k merges of one appendable clause -> Session/WithContext/Debug/Begin -> two children add one more each -> both finish; corpus: the fixed Returning / caller-slice / group-condition defects; distinct = distinct step-kind sequences; non-trivial = a state-carrying reusable handle starts >= 2 chains/finishers and at least one finisher runs"
+	out.Extra["rule"] = "case = a history of 20..60 steps over a tree of handles (Open, Session{}, Session{NewDB}, WithContext, Debug, Begin) on DummyDialector in DryRun: chain methods Where(string|map)/Or/Not/Having/Group/Order/Clauses(OrderBy,Returning,Locking,OnConflict,From)/Limit/Offset/Select(string|[]string)/Distinct/Omit/Joins/Scopes/Unscoped/Table/Model, Preload(P1..P3 with/without condition)/Set, Session options in arbitrary combinations (NewDB, Context carrying a tag, SkipHooks, statement-neutral ones), finishers Find/First/Take/Update/Delete from any live handle at any time; observed per finisher and per handle also context tag, SkipHooks, Preloads entries (+ identity of the map object per handle) and Settings entries; only handles from Open/Session/WithContext/Debug/Begin are reused, a chain result is continued linearly; edge stream: caller slices with spare capacity, empty/nil Returning; pattern stream: k merges of one appendable clause / k preloads / k settings -> Session/WithContext/Debug/Begin/tagged context/SkipHooks -> two children add one more each -> both finish, or (sessopt) child handles derived with NewDB/Context/SkipHooks combinations are left unused or used once and the handle is judged; corpus: the fixed Returning / caller-slice / group-condition defects; distinct = distinct step-kind sequences; non-trivial = a state-carrying reusable handle starts >= 2 chains/finishers and at least one finisher runs"
 	lib.Must(out.Flush())
 }
